@@ -648,6 +648,7 @@ func (ex *Exec) callBuiltin(caller *frame, fn *ssa.Builtin, args []Value) Value 
 		case *Map:
 			if x != nil {
 				x.entries = nil
+				x.reindex()
 			}
 		case []Value:
 			// zero elements: need the element type
